@@ -48,32 +48,46 @@ TrReset ==
 (* and LatestScheduled (ls, -1 = unset): NewSchedulableTask takes lc unless ls is set and not older, and        *)
 (* NewSchedule aligns it to the interval for "every" tasks.  Release through the coordinator = TaskDeleted or   *)
 (* TaskUpdated active -> inactive.                                                                              *)
+CfgOf(r) == [k |-> r.k, e |-> r.e, o |-> r.o, end |-> r.end]
 EffLast(r) ==
     IF "via" \in DOMAIN r
     THEN LET l0 == IF r.ls = -1 \/ r.ls < r.lc THEN r.lc ELSE r.ls
-         IN  IF r.k = "every" THEN (l0 \div r.e) * r.e ELSE l0
+         IN  Align(CfgOf(r), l0)                         \* NewSchedulableTask -> NewSchedule aligns every-tasks
+    ELSE IF r.k = "unit" THEN Align(CfgOf(r), r.last)     \* the driver schedules from what NewSchedule returned
     ELSE r.last
-OpOf(r) == IF r.t = "S" THEN SchedOp(r.id, [k |-> r.k, e |-> r.e, o |-> r.o, end |-> r.end], EffLast(r)) ELSE RelOp(r.id)
+(* the aligned time NewSchedule returned to the driver (logged as al) is the documented one *)
+AlignedOK(r) == ("al" \in DOMAIN r) => r.al = Align(CfgOf(r), r.last)
+OpOf(r) == IF r.t = "S" THEN SchedOp(r.id, CfgOf(r), EffLast(r))
+           ELSE IF r.t = "R" THEN RelOp(r.id)
+           ELSE [NoOp EXCEPT !.t = "P"]                   \* probe: Release of an id that was never scheduled
 
 TrCall ==
     /\ IsEv("Call") /\ pend = NoOp
+    /\ (Ln.t = "S" => AlignedOK(Ln))
     /\ pend' = OpOf(Ln)
     /\ UNCHANGED <<now, queue, nextTime, implvars, wk, wof, napi, ghostvars>>
 
 Done(op) == [op EXCEPT !.t = "done"]
 Failed(op) == [op EXCEPT !.t = "failed"]
 TrApiDo ==
-    /\ pend.t \in {"S", "R"}
+    /\ pend.t \in {"S", "R", "P"}
     /\ IF SchedFails(pend)
        THEN \* no occurrence after lastScheduled: Schedule returns an error, nothing changes
             /\ pend' = Failed(pend)
             /\ UNCHANGED <<queue, nextTime, wk, active, expNext, lastCk>>
+       ELSE IF pend.t = "P"
+       THEN pend' = Done(pend) /\ UNCHANGED <<queue, nextTime, wk, active, expNext, lastCk>>
        ELSE /\ pend' = Done(pend)
             /\ IF pend.t = "S" THEN SchedCore(pend.id, pend.c, pend.last) ELSE RelCore(pend.id)
     /\ UNCHANGED <<now, implvars, wof, napi, ran, ckAll, bad, l>>
 
+(* ApiNeverWaitsForExecution on the real code: the driver found the call parked on the scheduler's lock  *)
+(* while an execution was held in the executor (same goroutine, same frame, in several stack dumps) and  *)
+(* it returned only after the driver let that execution go.  No behaviour of the specification does that. *)
+Waited(r) == "waited" \in DOMAIN r /\ r.waited
 TrRet ==
     /\ IsEv("Ret")
+    /\ ~Waited(Ln)
     /\ \/ pend.t = "done" /\ Ln.err = ""
        \/ pend.t = "failed" /\ Ln.err # ""
     /\ pend' = NoOp
@@ -112,13 +126,19 @@ TrCkpt ==
     /\ IsEv("Ckpt")
     /\ \E w \in WorkerAt("ckpt", Ln.id, Ln.occ) : WorkerCkpt(w)
 
+(* NewSchedule alone: the aligned lastScheduled it returns for an "@every" period (all units, incl. 1y) *)
+TrAligned ==
+    /\ IsEv("Aligned")
+    /\ Ln.al = Align([k |-> Ln.k, e |-> Ln.e, o |-> 0, end |-> -1], Ln.last)
+    /\ UNCHANGED vars
+
 TrEnd ==
     /\ IsEv("End") /\ pend = NoOp /\ Ln.now = now
     /\ \A w \in Workers : wk[w].st \in {"idle", "park"}
     /\ \A x \in queue : x.when > now               \* nothing due was left behind
     /\ UNCHANGED vars
 
-TrNext == TrReset \/ TrCall \/ TrApiDo \/ TrRet \/ TrAdvBegin \/ TrAdvEnd \/ TrDispatch
+TrNext == TrReset \/ TrAligned \/ TrCall \/ TrApiDo \/ TrRet \/ TrAdvBegin \/ TrAdvEnd \/ TrDispatch
           \/ TrExecStart \/ TrExecEnd \/ TrCkpt \/ TrEnd
 TrSpec == TrInit /\ [][TrNext]_tvars
 
